@@ -402,7 +402,7 @@ func c04sign(c *an.Ctx) {
 	info := f.Info()
 	// tokens the lexer emits
 	emitted := map[string]bool{}
-	for _, g := range p.Fns {
+	for _, g := range p.Units() {
 		if g.Pkg != p.Jet || g.Body == nil {
 			continue
 		}
@@ -452,58 +452,103 @@ func c04sign(c *an.Ctx) {
 	}
 	sort.Strings(need)
 	c.Expect("C04.sign", "token kinds that can end an operand", len(need), 9)
-	// the exclusion lists of the two arms
-	lists := map[string]map[string]bool{}
+	// Decide the two sign arms by enumeration: for every token kind T the lexer can have emitted last,
+	// explore lexInsideAction with lastType == T and record what the '-' / '+' arm does: emit the operator
+	// token, or back up and hand over to the number lexer.  The form of the look-ahead test (a chain of
+	// !=, a switch, a helper function) does not matter.
+	var lastType ast.Expr
 	an.InspectOwn(f, func(n ast.Node) bool {
-		cc, ok := n.(*ast.CaseClause)
-		if !ok || len(cc.List) != 1 {
-			return true
+		if sel, ok := n.(*ast.SelectorExpr); ok && lastType == nil && p.FieldKey(info, sel) == "lexer.lastType" {
+			lastType = sel
 		}
-		s := strings.ReplaceAll(an.Str(cc.List[0]), " ", "")
-		if s != "r=='-'" && s != "r=='+'" {
-			return true
-		}
-		set := map[string]bool{}
-		for _, st := range cc.Body {
-			if is, ok := st.(*ast.IfStmt); ok {
-				for _, cj := range conjuncts(is.Cond) {
-					if b, ok := an.Unparen(cj).(*ast.BinaryExpr); ok && b.Op == token.NEQ {
-						l, r := an.Str(b.X), an.Str(b.Y)
-						if r == "l.lastType" {
-							set[l] = true
-						} else if l == "l.lastType" {
-							set[r] = true
-						}
-					}
-				}
-			}
-		}
-		lists[s] = set
 		return true
 	})
-	_ = info
-	minus, plus := lists["r=='-'"], lists["r=='+'"]
-	if minus == nil || plus == nil {
-		c.Anchor("C04.sign", "sign look-ahead arms in lexInsideAction")
+	if lastType == nil {
+		c.Anchor("C04.sign", "a read of lexer.lastType in lexInsideAction")
 		return
 	}
-	for arm, set := range map[string]map[string]bool{"-": minus, "+": plus} {
+	byName, _ := itemConsts(p)
+	opTok := map[string]string{"-": "itemMinus", "+": "itemAdd"}
+	type outcome struct{ op, other bool }
+	result := map[string]map[string]*outcome{"-": {}, "+": {}}
+	var all []string
+	for t := range emitted {
+		if _, ok := byName[t]; ok {
+			all = append(all, t)
+		}
+	}
+	sort.Strings(all)
+	for _, T := range all {
+		hooks := an.Hooks{
+			Branch: func(x *an.Explorer, cond ast.Expr, val bool, st *an.State) {
+				if !val {
+					return
+				}
+				switch strings.ReplaceAll(an.Str(cond), " ", "") {
+				case "r=='-'":
+					st.Set("arm", "-")
+				case "r=='+'":
+					st.Set("arm", "+")
+				}
+			},
+			Call: func(x *an.Explorer, call *ast.CallExpr, st *an.State) {
+				if an.IsCallTo(x.Fn.Info(), call, "(*jet.lexer).emit") && len(call.Args) == 1 && st.Get("arm") != "" {
+					st.Set("emit", an.Str(call.Args[0]))
+				}
+			},
+		}
+		x := p.NewExplorer(f, hooks)
+		init := an.NewState()
+		if !x.SetEq(lastType, fmt.Sprint(byName[T]), init) {
+			c.Undecided("C04.sign", "lexInsideAction/lastType", f.Pos(), "l.lastType cannot be tracked")
+			return
+		}
+		x.Run(init)
+		c.States += x.Visited
+		if x.Undecided != "" {
+			c.Undecided("C04.sign", "lexInsideAction/"+T, f.Pos(), "%s", x.Undecided)
+			return
+		}
+		for _, ex := range x.Exits {
+			arm := ex.State.Get("arm")
+			if arm == "" {
+				continue
+			}
+			o := result[arm][T]
+			if o == nil {
+				o = &outcome{}
+				result[arm][T] = o
+			}
+			if ex.State.Get("emit") == opTok[arm] {
+				o.op = true
+			} else {
+				o.other = true
+			}
+		}
+	}
+	c.FnsAnalysed[f.Name] = true
+	if len(result["-"]) == 0 || len(result["+"]) == 0 {
+		c.Anchor("C04.sign", "sign arms (case r == '-' / case r == '+') in lexInsideAction")
+		return
+	}
+	for _, arm := range []string{"-", "+"} {
 		var missing []string
 		for _, t := range need {
-			if !set[t] {
+			if o := result[arm][t]; o == nil || o.other {
 				missing = append(missing, t)
 			}
 		}
 		c.Check(len(missing) == 0, "C04.sign", "lexInsideAction/'"+arm+"'", f.Pos(), "after every operand-ending token `"+arm+"<digit>` is an operator",
 			fmt.Sprintf("after %v a `%s` directly followed by a digit is lexed as the sign of a number instead of an operator: `x%s1` is a parse error / means something else than `x %s 1`", missing, arm, arm, arm))
 	}
-	same := len(minus) == len(plus)
-	for t := range minus {
-		if !plus[t] {
+	same := true
+	for _, t := range all {
+		m, pl := result["-"][t], result["+"][t]
+		if (m == nil) != (pl == nil) || (m != nil && (m.op != pl.op || m.other != pl.other)) {
 			same = false
 		}
 	}
-	c.Check(same, "C04.sign", "lexInsideAction/agree", f.Pos(), "the + and - look-ahead lists agree", "the sign look-ahead lists of `+` and `-` differ: a+1 and a-1 are tokenised differently")
+	c.Check(same, "C04.sign", "lexInsideAction/agree", f.Pos(), "the + and - look-ahead decisions agree for every preceding token kind", "the sign look-ahead of `+` and `-` differ for some preceding token: a+1 and a-1 are tokenised differently")
 }
 
 var relOps = map[string]token.Token{"itemGreat": token.GTR, "itemGreatEquals": token.GEQ, "itemLess": token.LSS, "itemLessEquals": token.LEQ}
